@@ -296,6 +296,23 @@ proof fn vac__must_go_on_chain_for(htlc: &HTLCOutputInCommitment, htlc_outbound:
     requires height <= 0x7fff_ffff, htlc.cltv_expiry <= 0x7fff_ffff,
     ensures false
 {}
+// ---- when a held (intercepted) forward is given up (deep R15 slice of do_chain_event's sweep over pending_intercepted_htlcs) ----
+pub struct PendingHTLCInfo { pub outgoing_cltv_value: u32 }
+pub struct PendingAddHTLCInfo { pub forward_info: PendingHTLCInfo }
+fn intercepted_htlc_is_failed_back(htlc: &PendingAddHTLCInfo, height: u32) -> (kept: bool)
+    requires
+    htlc.forward_info.outgoing_cltv_value >= HTLC_FAIL_BACK_BUFFER, height <= 0x7fff_ffff,
+
+    ensures
+    kept <==> height as int + HTLC_FAIL_BACK_BUFFER < htlc.forward_info.outgoing_cltv_value,
+ {
+        if height >= htlc.forward_info.outgoing_cltv_value - HTLC_FAIL_BACK_BUFFER { false } else { true }
+    }
+
+proof fn vac__intercepted_htlc_is_failed_back(htlc: &PendingAddHTLCInfo, height: u32) 
+    requires htlc.forward_info.outgoing_cltv_value >= HTLC_FAIL_BACK_BUFFER, height <= 0x7fff_ffff,
+    ensures false
+{}
 // (P, C08) with the heights above, the forwarding race of lemma_forward_race is the one the monitor really runs:
 // downstream silent => on chain at outgoing + LATENCY; upstream claimable (preimage known) => on chain from incoming - CLTV_CLAIM_BUFFER
 pub proof fn lemma_on_chain_heights_close_the_race(incoming: int, outgoing: int, delta: int)
